@@ -33,14 +33,15 @@
  "name": "revoke_find_insert_B4",
  "props": ["C03"],
  "level": "B(4)",
- "tier": "wip",
+ "tier": "quick",
  "harness": "h_revoke_chain",
  "unwind": 6,
- "unwind_reason": "BOUNDED stand-in: hash chains of at most 4 records (chain length is unbounded in reality); 6 covers the 4+1 records walked and the harness loops",
+ "unwind_reason": "BOUNDED stand-in: hash chains of at most 4 records (chain length is unbounded in reality); 6 covers the 4+1 records walked after an insert and the harness loops",
  "includes": ["e2fsck"],
+ "defines": ["RV_CHAIN_MAX=4"],
  "functions": ["e2fsck/revoke.c:find_revoke_record", "e2fsck/revoke.c:insert_revoke_hash", "e2fsck/revoke.c:hash"],
  "assumes": ["bounded: one hash bucket with a chain of at most 4 records; table shrunk to 4 buckets (hash_shift 2; the front ends use 1024) to keep the query small; other buckets are never touched (left uninitialised)",
-	     "malloc does not fail (the -ENOMEM path of insert_revoke_hash is not exercised here)"],
+	     "bounded: the block number looked up / inserted is below 16 (the records already in the chain carry arbitrary 64-bit numbers)"],
  "native": false
 }
 */
@@ -241,6 +242,9 @@ void h_revoke_history(void)
 }
 
 /* ---- bounded: the real chain walkers on a real bucket ---- */
+#ifndef RV_CHAIN_MAX
+#define RV_CHAIN_MAX 4
+#endif
 static struct jbd2_revoke_table_s TBL;
 static struct kmem_cache RCACHE;
 static struct jbd2_revoke_record_s *REC[4];
@@ -248,7 +252,7 @@ static struct jbd2_revoke_record_s *REC[4];
 void h_revoke_chain(void)
 {
 	LOAD_IN();
-	ASSUME(IN.n <= 4);
+	ASSUME(IN.n <= RV_CHAIN_MAX);
 	TBL.hash_size = 4;
 	TBL.hash_shift = 2;
 	TBL.hash_table = malloc(4 * sizeof(struct list_head));
@@ -257,11 +261,15 @@ void h_revoke_chain(void)
 	RCACHE.object_size = sizeof(struct jbd2_revoke_record_s);
 	jbd2_revoke_record_cache = &RCACHE;
 	unsigned long long b = IN.tblk;
-	unsigned int h = (unsigned int)((b * 0x61C8864680B583EBull) >> 62);	/* hash_64(b, 2): top 2 bits of the golden-ratio product */
+	ASSUME(b < 16);		/* bounded: keeps the 64-bit golden-ratio product inside hash() a small circuit */
+	/* the bucket is the one the real hash() names (re-computing the golden-ratio product here would leave the solver
+	 * with an equivalence proof of two 64-bit multipliers); what is checked about hash() itself is its range */
+	unsigned int h = (unsigned int)hash(&J, b);
+	CHECK(h < 4, "hash() names a bucket inside the table");
 	struct list_head *head = &TBL.hash_table[h];
 	head->next = head; head->prev = head;
 	/* chain of n records with arbitrary contents, linked as list_add would (newest first) */
-	for (int i = 0; i < 4; i++) {
+	for (int i = 0; i < RV_CHAIN_MAX; i++) {
 		if (i >= IN.n) break;
 		REC[i] = malloc(sizeof(struct jbd2_revoke_record_s));
 		ASSUME(REC[i] != 0);
@@ -272,17 +280,22 @@ void h_revoke_chain(void)
 	}
 	/* spec: the first record in chain order (REC[n-1], ..., REC[0]) whose block number matches */
 	struct jbd2_revoke_record_s *want = 0;
-	for (int i = 0; i < 4; i++)
+	for (int i = 0; i < RV_CHAIN_MAX; i++)
 		if (i < IN.n && REC[i]->blocknr == b)
 			want = REC[i];
 	struct jbd2_revoke_record_s *got = find_revoke_record(&J, b);
 	CHECK(got == want, "find returns the newest record of that block in its bucket, or NULL");
 	if (IN.which & 1) {
 		int r = insert_revoke_hash(&J, b, IN.ts);
-		CHECK(r == 0, "insert succeeds when memory is available");
 		struct jbd2_revoke_record_s *got2 = find_revoke_record(&J, b);
-		CHECK(got2 != 0 && got2 != want && got2->blocknr == b && got2->sequence == IN.ts, "a lookup after insert finds the new record");
-		CHECK(got2->hash.next == (IN.n ? &REC[IN.n - 1]->hash : head), "the old chain follows the new record unchanged");
+		if (r != 0) {
+			/* the allocator may fail (CBMC's malloc can return NULL) */
+			CHECK(r == -ENOMEM && got2 == want, "insert fails only for lack of memory, and then leaves the chain alone");
+			REACH("insert: out of memory");
+		} else {
+			CHECK(got2 != 0 && got2 != want && got2->blocknr == b && got2->sequence == IN.ts, "a lookup after insert finds the new record");
+			CHECK(got2 != 0 && got2->hash.next == (IN.n ? &REC[IN.n - 1]->hash : head), "the old chain follows the new record unchanged");
+		}
 		REACH("insert");
 	}
 	if (want) REACH("found"); else REACH("not found");
